@@ -1403,7 +1403,7 @@ impl<Word, Buf: AsMut<[Word]>> WriteWords<Word> for Cursor<Word, Buf> {
 impl<Word, Buf: AsMut<[Word]> + AsRef<[Word]>> BoundedWriteWords<Word> for Cursor<Word, Buf> {
     #[inline(always)]
     fn space_left(&self) -> usize {
-        self.buf.as_ref().len() - self.pos
+        self.buf.as_ref().len().saturating_sub(self.pos)
     }
 }
 
@@ -1414,15 +1414,14 @@ impl<Word, Buf: SafeBuf<Word> + AsMut<[Word]>> WriteWords<Word> for Reverse<Curs
     fn write(&mut self, word: Word) -> Result<(), Self::WriteError> {
         if self.0.pos == 0 {
             Err(BoundedWriteError::OutOfSpace)
-        } else {
+        } else if let Some(target) = self.0.buf.as_mut().get_mut(self.0.pos - 1) {
+            // We can't use unchecked indexing here because safe code can shrink an owned
+            // buffer below `pos` via `Cursor::buf_mut`.
+            *target = word;
             self.0.pos -= 1;
-            unsafe {
-                // SAFETY: We maintain the invariant `self.0.pos <= self.0.buf.as_mut().len()`
-                // and we just decreased `self.0.pos` (and made sure that didn't wrap around),
-                // so we now have `self.0.pos < self.0.buf.as_mut().len()`.
-                *self.0.buf.as_mut().get_unchecked_mut(self.0.pos) = word;
-                Ok(())
-            }
+            Ok(())
+        } else {
+            Err(BoundedWriteError::OutOfSpace)
         }
     }
 }
@@ -1470,14 +1469,14 @@ impl<Word: Clone, Buf: SafeBuf<Word>> ReadWords<Word, Stack> for Cursor<Word, Bu
     fn read(&mut self) -> Result<Option<Word>, Self::ReadError> {
         if self.pos == 0 {
             Ok(None)
-        } else {
+        } else if let Some(word) = self.buf.as_ref().get(self.pos - 1) {
+            // We can't use unchecked indexing here because safe code can shrink an owned
+            // buffer below `pos` via `Cursor::buf_mut`.
+            let word = word.clone();
             self.pos -= 1;
-            unsafe {
-                // SAFETY: We maintain the invariant `self.pos <= self.buf.as_ref().len()`
-                // and we just decreased `self.pos` (and made sure that didn't wrap around),
-                // so we now have `self.pos < self.buf.as_ref().len()`.
-                Ok(Some(self.buf.as_ref().get_unchecked(self.pos).clone()))
-            }
+            Ok(Some(word))
+        } else {
+            Ok(None)
         }
     }
 
@@ -1515,7 +1514,7 @@ impl<Word: Clone, Buf: SafeBuf<Word>> BoundedReadWords<Word, Stack> for Cursor<W
 impl<Word: Clone, Buf: AsRef<[Word]>> BoundedReadWords<Word, Queue> for Cursor<Word, Buf> {
     #[inline(always)]
     fn remaining(&self) -> usize {
-        self.buf.as_ref().len() - self.pos
+        self.buf.as_ref().len().saturating_sub(self.pos)
     }
 }
 
